@@ -223,6 +223,11 @@ where
             let (un, am) = (u(a[0]), dec_amt(a[1]));
             format!("{}|{}|{}", qstr(Q::new(am, un)), qstr(am * un), qstr(un * am))
         }
+        "asq" => {
+            // `Unit::as_qty`: every unit taken as a quantity is one of itself
+            let un = u(a[0]);
+            qstr(un.as_qty())
+        }
         "smul" => {
             let q = Q::new(dec_amt(a[1]), u(a[0]));
             let k = dec_amt(a[2]);
